@@ -293,6 +293,10 @@ func runProperty(prop, tier, repo string, cs *Contracts, timeout int, verbose bo
 				if prev, ok := seenHash[h]; ok {
 					o.dupOf = prev
 					r.cachedDup++
+				} else if cd := os.Getenv("GOCV_CACHE"); cd != "" && !o.Vacuity && cacheHit(cd, h) {
+					// development aid only (off unless GOCV_CACHE is set): an identical query was answered unsat before
+					o.Status, o.Solver = "unsat", "cache"
+					seenHash[h] = o
 				} else {
 					seenHash[h] = o
 					batch = append(batch, o)
@@ -314,6 +318,13 @@ func runProperty(prop, tier, repo string, cs *Contracts, timeout int, verbose bo
 			}
 		}
 		solveAll(batch, timeout, 16)
+		if cd := os.Getenv("GOCV_CACHE"); cd != "" {
+			for _, o := range batch {
+				if o.Status == "unsat" && !o.Vacuity && o.Solver != "cache" {
+					cachePut(cd, o.QueryHash())
+				}
+			}
+		}
 	}
 	for _, o := range r.obls {
 		if o.dupOf != nil {
@@ -376,15 +387,23 @@ func (r *propRun) report(prop, tier string, seed int, evPath string, noEvidence 
 	}
 	violations := 0
 	known := 0
+	otherOwned := 0 // failing check-only (nocall) clauses that are recorded findings of another property
 	replayDir := filepath.Join(replayRoot(), prop)
 	var lines []string
 	for _, o := range failed {
 		isKnown := false
 		for _, f := range findings {
-			// a listed finding is recognised in every cone that contains its obligation (it is printed under
-			// the property it was recorded for)
 			if f.kind == "finding" && f.obl != "" && strings.Contains(o.Name, f.obl) {
-				lines = append(lines, fmt.Sprintf("KNOWN-FINDING: property=%s (seen by the check of %s) %s", f.prop, prop, strings.TrimSpace(strings.TrimPrefix(f.text, "property="+f.prop))))
+				if f.prop != prop {
+					// the finding belongs to another property: if its clause is tagged nocall (checked on the
+					// function, never assumed by callers) it is not part of this property's cone
+					if hasTag(o.Tags, "nocall") {
+						isKnown = true
+						otherOwned++
+					}
+					break
+				}
+				lines = append(lines, fmt.Sprintf("KNOWN-FINDING: property=%s %s", prop, strings.TrimSpace(strings.TrimPrefix(f.text, "property="+f.prop))))
 				isKnown = true
 				known++
 				break
@@ -495,6 +514,7 @@ func (r *propRun) report(prop, tier string, seed int, evPath string, noEvidence 
 		"by_backend":               r.byBackend,
 		"solver_time_s":            round3(r.solverTime),
 		"known_failing":            known,
+		"check_only_clauses_failing_as_findings_of_other_properties": otherOwned,
 		"vacuity":                  map[string]int{"exits_reachable": vacOK, "vacuous_functions": vacBad},
 		"engine_notes":             dedupe(r.notes),
 		"samples":                  samples,
@@ -508,8 +528,8 @@ func (r *propRun) report(prop, tier string, seed int, evPath string, noEvidence 
 		os.MkdirAll(filepath.Dir(evPath), 0o755)
 		writeJSON(evPath, ev)
 	}
-	fmt.Printf("gocv: property %s tier %s: %d obligations, %d discharged, %d failing (%d known), %d generation errors, %d functions, %.1fs\n",
-		prop, tier, total, discharged, len(failed), known, len(r.genErrors), len(r.funcs), r.wall)
+	fmt.Printf("gocv: property %s tier %s: %d obligations, %d discharged, %d failing (%d known, %d check-only clauses recorded as findings of another property), %d generation errors, %d functions, %.1fs\n",
+		prop, tier, total, discharged, len(failed), known, otherOwned, len(r.genErrors), len(r.funcs), r.wall)
 	if violations > 0 {
 		return 1
 	}
@@ -660,4 +680,16 @@ func replayRoot() string {
 		return d
 	}
 	return filepath.Join(verifDir, "replays")
+}
+
+
+func cacheHit(dir, h string) bool {
+	_, err := os.Stat(filepath.Join(dir, h[:2], h))
+	return err == nil
+}
+
+func cachePut(dir, h string) {
+	d := filepath.Join(dir, h[:2])
+	os.MkdirAll(d, 0o755)
+	os.WriteFile(filepath.Join(d, h), nil, 0o644)
 }
